@@ -519,6 +519,9 @@ func TriAreaFloat(a, b, c s2.Point) float64 {
 //
 // Both lie below the 1e-14 sr the property quantifies over but inside "zero-area
 // and nearly degenerate loops"; failures in them are labelled, not hidden.
+// (tiny-edge-underflow was repaired in /repo by 4602f1b + f154637, which rescale
+// PointCross's factors and result by powers of two; the label is kept so that a
+// regression is attributed correctly.)
 func shortEdgeClass(v []r3.Vector) string {
 	n := len(v)
 	iv, e := exact.IntVecs(v...)
